@@ -24,7 +24,7 @@ def model():
             groups = orm.Set('Group')
 
         class Group(db.Entity):
-            id = orm.PrimaryKey(int)
+            id = orm.PrimaryKey(int, auto=True)
             title = orm.Required(str)
             room = orm.Optional(str)
             level = orm.Optional(int)
@@ -37,6 +37,7 @@ def model():
             group = orm.Required(Group)
         db.generate_mapping(create_tables=True)
         _M = types.SimpleNamespace(db=db, Dept=Dept, Group=Group, Student=Student)
+        _M.NewGroup = lambda **kw: Group(**kw)                  # (the key of Group is an AUTO integer: a new group has no key until its INSERT)
     return _M
 
 
@@ -139,3 +140,51 @@ def case(cfg, values):
 
 def spec(cfg, i, path):
     return path.outcome == 'ret' and path.value == []
+
+
+# ------------------------------------------------------------------ objects created in the session (no key yet) as PARAMETERS of queries and lookups
+BOUND_NEW = 'a new group with a new student and a loaded student moved into it; 13 ways of asking for "the students of this group" with the new object as a parameter; before anything was flushed'
+ASK = {
+    'generator ==': lambda M, g: orm.select(s for s in M.Student if s.group == g)[:],
+    'generator in list': lambda M, g: orm.select(s for s in M.Student if s.group in [g])[:],
+    'generator in tuple with a loaded group': lambda M, g: orm.select(s for s in M.Student if s.group in (g, M.g2) and s.group != M.g2)[:],
+    'lambda filter': lambda M, g: M.Student.select().filter(lambda s: s.group == g)[:],
+    'Entity.select(lambda)': lambda M, g: M.Student.select(lambda s: s.group == g)[:],
+    'select(group=...)': lambda M, g: M.Student.select(group=g)[:],
+    'get(name, group)': lambda M, g: [x for x in [M.Student.get(name='new student', group=g)] if x is not None] + [x for x in [M.Student.get(name='s3', group=g)] if x is not None],
+    'exists(group=...)': lambda M, g: ['exists'] if M.Student.exists(group=g) else [],
+    'count': lambda M, g: ['count %d' % orm.count(s for s in M.Student if s.group == g)],
+    'member of its collection': lambda M, g: orm.select(s for s in M.Student if s in g.students)[:],
+    'attribute of the new object': lambda M, g: orm.select(s for s in M.Student if s.group.title == g.title)[:],
+    'not equal': lambda M, g: orm.select(s for s in M.Student if s.group != g)[:],
+    'the new object through a query over groups': lambda M, g: [s for x in orm.select(x for x in M.Group if x == g) for s in x.students],
+}
+
+
+def new_configs(tier):
+    return [dict(ask=a, flushed=f) for a in ASK for f in (False, True)]
+
+
+def new_case(cfg, values):
+    def call():
+        M = model(); _data(M); bad = []
+        try:
+            with orm.db_session:
+                M.g2 = M.Group[2]; s3 = M.Student[3]; others = [M.Student[1], M.Student[2]]
+                g = M.NewGroup(title='brand new')
+                s_new = M.Student(id=50, name='new student', group=g); s3.group = g
+                if cfg['flushed']: orm.flush()
+                got = ASK[cfg['ask']](M, g)
+                names = sorted(x if isinstance(x, str) else x.name for x in got)
+                if cfg['ask'] == 'exists(group=...)': want = ['exists']
+                elif cfg['ask'] == 'count': want = ['count 2']
+                elif cfg['ask'] == 'not equal': want = ['s1', 's2']
+                else: want = ['new student', 's3']
+                if names != want: bad.append(('asked through %s' % cfg['ask'], 'answer: %r' % names, 'the session made: %r' % want))
+                orm.rollback()
+        except Exception as e:
+            bad.append(('raises %s: %s' % (type(e).__name__, str(e)[:100]),))
+        finally:
+            _reset()
+        return bad[:3]
+    return Case(call, {}, [], lambda r: _reset(), lambda r: _reset())
